@@ -58,6 +58,8 @@ func c03tDocs(tier string) []string {
 	return docs
 }
 
+func c03tDir() string { return fmt.Sprintf("c03t-%d", *flagShard) }
+
 type c03tEcho struct {
 	got []string
 	seq []string
@@ -165,8 +167,8 @@ func c03tRun(in c03tInput) (msg, key string, infra bool, cases int) {
 	needService := in.Transport != "bridge-oneshot"
 	switch in.Transport {
 	case "unix":
-		os.MkdirAll("c03t", 0o755)
-		sockaddr = "c03t/" + tag[len(tag)-12:] + ".sock"
+		os.MkdirAll(c03tDir(), 0o755)
+		sockaddr = c03tDir() + "/" + tag[len(tag)-12:] + ".sock"
 		network, addr = "unix", "unix:"+sockaddr
 	case "abstract", "bridge":
 		sockaddr = "@" + tag
@@ -205,8 +207,8 @@ func c03tRun(in c03tInput) (msg, key string, infra bool, cases int) {
 	case "bridge":
 		conn, err = varlink.NewBridgeWithStderr(fmt.Sprintf("exec %s -helper c03proxy %s %s", os.Args[0], network, sockaddr), io.Discard)
 	case "bridge-oneshot":
-		os.MkdirAll("c03t", 0o755)
-		marker = "c03t/" + tag + ".exited"
+		os.MkdirAll(c03tDir(), 0o755)
+		marker = c03tDir() + "/" + tag + ".exited"
 		conn, err = varlink.NewBridgeWithStderr(fmt.Sprintf("%s -helper c03oneshot; : > %s", os.Args[0], marker), io.Discard)
 	default:
 		conn, err = varlink.NewConnection(ctx, addr)
@@ -322,7 +324,7 @@ func runC03T(tier string, r *Result) {
 			inputs = append(inputs, c03tInput{Transport: tr, Kind: "more", Seq: sq})
 		}
 	}
-	defer os.RemoveAll("c03t")
+	defer os.RemoveAll(c03tDir())
 	for i, in := range inputs {
 		if !r.mine(i) || r.expired() {
 			continue
